@@ -7,10 +7,13 @@ CONSTANTS
   BlockInfo <- MC_BlockInfo
   LogNames <- MC_LogNames
   TraceSteps <- MC_Trace2
+  FuncBodies <- MC_FuncBodies
   MaxHist = 4
   AsFound_VarListCached = FALSE
   AsFound_TraceBreaksFunctions = FALSE
   Hyp_IdResetPerModel = FALSE
+  Hyp_SharedFunctions = FALSE
+  Hyp_RhsCachedByName = FALSE
 INVARIANT TypeOK
 INVARIANT C17_HistoryIndependent
 INVARIANT C17_ReparseClean
